@@ -66,12 +66,14 @@ where
             let jr: Vec<F> = rand_vec(t.joint_rand_len(), &mut st, kind.min(4) + if kind < 4 { 0 } else { 0 });
             let pr: Vec<F> = rand_vec(t.prove_rand_len(), &mut st, 4);
             let mut qr: Vec<F> = rand_vec(t.query_rand_len(), &mut st, kind.min(4));
-            // make the gadget query point admissible
-            let last = qr.len() - 1;
-            let mut tries = 0;
-            while modpow(qr[last].val(), pl, p) == 1 {
-                qr[last] = F::fe((qr[last].val() + 2 + tries) % p);
-                tries += 1;
+            // make every gadget query point admissible (the last num_gadgets entries)
+            for g in 0..spec.num_gadgets() {
+                let last = qr.len() - 1 - g;
+                let mut tries = 0;
+                while modpow(qr[last].val(), pl, p) == 1 {
+                    qr[last] = F::fe((qr[last].val() + 2 + tries) % p);
+                    tries += 1;
+                }
             }
             for x in [&valid_x, &invalid_x] {
                 let xf: Vec<F> = vf(x);
@@ -142,9 +144,11 @@ where
         let jr: Vec<F> = rand_vec(t.joint_rand_len(), &mut st, 4);
         let pr: Vec<F> = rand_vec(t.prove_rand_len(), &mut st, 4);
         let mut qr: Vec<F> = rand_vec(t.query_rand_len(), &mut st, 4);
-        let last = qr.len() - 1;
-        while modpow(qr[last].val(), pl, p) == 1 {
-            qr[last] = F::fe((qr[last].val() + 2) % p);
+        for g in 0..spec.num_gadgets() {
+            let last = qr.len() - 1 - g;
+            while modpow(qr[last].val(), pl, p) == 1 {
+                qr[last] = F::fe((qr[last].val() + 2) % p);
+            }
         }
         let proof = t.prove(&xf, &pr, &jr).unwrap();
         let verifier = t.query(&xf, &proof, &qr, &jr, 1).unwrap();
@@ -225,7 +229,7 @@ where
         }
         valids.push(z.clone());
         match spec {
-            Spec::Count | Spec::Sum { .. } | Spec::SumVec { .. } => valids.push(vec![1; n]),
+            Spec::Count | Spec::Sum { .. } | Spec::SumVec { .. } | Spec::TwoGadget => valids.push(vec![1; n]),
             Spec::Deg3 { .. } => valids.push(vec![2; n]),
             Spec::Histogram { .. } => {
                 let mut v = vec![0; n];
@@ -326,11 +330,13 @@ where
         }
         // --- completeness over the lattice: each randomness vector = constant special value / mixed
         let fix_gadget_point = |qr: &mut Vec<F>| {
-            let last = qr.len() - 1;
-            let mut k = 0u128;
-            while modpow(qr[last].val(), pl as u128, p) == 1 {
-                qr[last] = F::fe((qr[last].val() + 3 + k) % p);
-                k += 1;
+            for g in 0..spec.num_gadgets() {
+                let last = qr.len() - 1 - g;
+                let mut k = 0u128;
+                while modpow(qr[last].val(), pl as u128, p) == 1 {
+                    qr[last] = F::fe((qr[last].val() + 3 + k) % p);
+                    k += 1;
+                }
             }
         };
         for x in &valids {
